@@ -2,7 +2,6 @@ package main
 
 import (
 	"fmt"
-	"go/token"
 	"go/types"
 	"sort"
 	"strings"
@@ -13,553 +12,1077 @@ import (
 func init() {
 	register(&propDef{
 		id: "C22", run: runC22, minOblig: 25,
-		explanation: "Decides structural necessary conditions of C22 in cryptobyte: (width) for N in 8,16,24,32,48,64 the byte layout written by AddUintN (shift amount of each appended byte, extracted from the SSA of the variadic add call) equals the layout consumed by ReadUintN (index->shift of each OR operand), both big-endian and of N/8 bytes, and AddUintNLengthPrefixed / ReadUintNLengthPrefixed pass the same prefix width; (fixed-size) Builder.result is assigned only by the tabled functions, the only append is in add and is unreachable from the true edge of the capacity test, flushChild's identity test precedes adopting the child's buffer; (error discipline) after every fallible add in addLengthPrefixed and flushChild the builder's err is tested before any code that assumes the bytes were appended (child creation, copy/shift of contents, offset arithmetic); (overflow) the buffer is adopted only over the edge where the residual length l == 0 after patching; (ASN.1 promotion) for boundary lengths 0..2^32 the promoted length-of-length and first length octet evaluate to the DER values. NOT decided: value recovery for arbitrary operation trees.",
-		assumptions: []string{"append/copy builtin semantics", "the variadic argument array of add is filled in source order"},
+		explanation: "Decides C22 for a finite family of Builder programs and String inputs by abstract interpretation of the package's SSA (byte buffers are sparse, so buffers of 2^32 bytes are covered; helpers, loops and locals are followed wherever they live, nothing depends on how the code is factored or named): (width) for N in 8,16,24,32,48,64 AddUintN writes exactly the N/8 big-endian bytes of the value and ReadUintN reads them back, consuming exactly N/8 bytes and failing on a short input; (prefix-width) AddUintNLengthPrefixed (N=8..32) emits an N/8-byte big-endian length followed by the child's bytes and ReadUintNLengthPrefixed (N=8..24) splits such an input into content and rest; (be-accumulate) the length prefix of ReadUintNLengthPrefixed and the long-form length octets of ReadASN1 are decoded big-endian on hand-made inputs with pairwise distinct bytes; (overflow) a child of 2^N-1 bytes is accepted with an all-ones prefix and a child of 2^N or more bytes makes Bytes return an error; (ASN.1 promotion) for 21 boundary content lengths 0..2^32 AddASN1 emits the DER minimal length form, moves the content behind the promoted header, reports 'too long' above 0xfffffffe, and ReadASN1 recovers the content; (fixed-size) on a NewFixedBuilder every successful program leaves the output in the caller's buffer, AddBytes fails exactly when len+n exceeds the capacity, a continuation that swaps the child's buffer for another one makes a fixed-size parent panic and a growable parent adopt it; (error discipline) when the length placeholder, or the extra long-form length octets, do not fit a fixed-size buffer, Bytes returns an error and nothing panics or is silently truncated; (who may write result) every assignment to Builder.result in the package stores a value derived from Builder.result itself, from the buffer handed to an exported constructor, or from an allocation site (append/make) that the interpreted programs exercised under the checks above; (round trip) one program nesting 8/16/24/32-bit prefixed and ASN.1 children, all fixed-width integers and Unwrite is written by a growable and by fixed-size builders (exact, larger, too small) and read back value by value with the mirrored String reads, nothing left over. NOT decided: value recovery for arbitrary operation trees, AddValue with user Marshal code, Unwrite beyond its effect on result.",
+		assumptions: []string{"append/copy/make builtin semantics and slice bounds checks as modelled by the interpreter", "errors.New / fmt.Errorf return a non-nil error"},
 	})
-	tech("C22", "byte-layout extraction writer vs reader, who-may-write table, must-cross CFG rules, finite-domain evaluation of the ASN.1 length ladder")
+	tech("C22", "abstract interpretation of the SSA of Builder/String entry points over sparse byte buffers against the wire-format specification computed in Go; provenance of every value stored into Builder.result")
 }
 
-// writerLayout: the shift applied to the value for each byte passed to a
-// variadic add(bytes...) call; nil if the shape is not recognised.
-func writerLayout(call *ssa.Call) []int64 {
-	if len(call.Call.Args) < 2 {
-		return nil
+// c22Env: what the C22 rules share — the interpreter, the package, and the
+// entry points, all looked up by their EXPORTED names (the unexported helpers
+// behind them are free to change).
+type c22Env struct {
+	c   *Ctx
+	it  *c22I
+	pk  string
+	bst *types.Struct // struct Builder
+	// allocation sites (append / make) executed by any interpreted program / by a fixed-size one
+	covAny   map[ssa.Instruction]bool
+	covFixed map[ssa.Instruction]bool
+	missing  map[string]bool
+}
+
+func (e *c22Env) fn(name string) *ssa.Function {
+	f := e.c.fnOpt(e.pk, name)
+	if f == nil && !e.missing[name] {
+		e.missing[name] = true
+		e.c.fn(e.pk, name) // records the lost anchor
 	}
-	sl, ok := call.Call.Args[1].(*ssa.Slice)
-	if !ok {
-		return nil
+	return f
+}
+
+// verdict records the outcome of one rule: discharged when nothing was found,
+// UNDECIDED when every finding is "the interpreter could not follow the code"
+// (never a pass), violated otherwise.
+func (e *c22Env) verdict(bad string, rule, construct string, at poser, okDetail, failDetail string) {
+	if bad == "" {
+		e.c.ok(rule, construct, at, okDetail)
+		return
 	}
-	al, ok := sl.X.(*ssa.Alloc)
-	if !ok {
-		return nil
+	items := strings.Split(strings.TrimPrefix(bad, "; "), "; ")
+	limits := 0
+	for _, it := range items {
+		if strings.Contains(it, "not interpretable:") {
+			limits++
+		}
 	}
-	arr, ok := al.Type().Underlying().(*types.Pointer).Elem().Underlying().(*types.Array)
-	if !ok {
-		return nil
+	if limits == len(items) {
+		e.c.undecided(rule, construct, at, failDetail)
+		return
 	}
-	out := make([]int64, arr.Len())
-	for i := range out {
-		out[i] = -1
+	e.c.fail(rule, construct, at, failDetail)
+}
+
+// c22Result of one interpreted scenario.
+type c22Result struct {
+	exit *c22Exit
+	out  c22V // Bytes() slice
+	err  c22V // Bytes() error
+}
+
+func (r c22Result) failed() bool { return r.exit == nil && r.err.k != c22KNil }
+func (r c22Result) okay() bool   { return r.exit == nil && r.err.k == c22KNil }
+
+func (r c22Result) String() string {
+	switch {
+	case r.exit != nil:
+		return r.exit.String()
+	case r.err.k != c22KNil:
+		return "Bytes returns error " + fmt.Sprintf("%q", r.err.str)
 	}
-	for _, r := range *al.Referrers() {
-		ia, ok := r.(*ssa.IndexAddr)
-		if !ok {
+	n, _ := c22Len(r.out)
+	return fmt.Sprintf("Bytes returns %d bytes, no error", n)
+}
+
+// build interprets: b := ctor(buffer); prog(b); b.Bytes().
+func (e *c22Env) build(fixed bool, buffer c22V, prog func(b c22V)) c22Result {
+	ctor := "NewBuilder"
+	if fixed {
+		ctor = "NewFixedBuilder"
+	}
+	cf, bytesF := e.fn(ctor), e.fn("(*Builder).Bytes")
+	var res c22Result
+	if cf == nil || bytesF == nil {
+		res.exit = &c22Exit{kind: "undecided", msg: "constructor or Bytes not found"}
+		return res
+	}
+	e.it.cover = map[ssa.Instruction]bool{}
+	res.exit = e.it.run(func() {
+		b := e.it.call(cf, []c22V{buffer}, nil)
+		prog(b)
+		t := e.it.call(bytesF, []c22V{b}, nil)
+		if t.k != c22KTuple || len(t.t) != 2 {
+			e.it.abort("Bytes did not return (bytes, error)")
+		}
+		res.out, res.err = t.t[0], t.t[1]
+	})
+	for in := range e.it.cover {
+		e.covAny[in] = true
+		if fixed {
+			e.covFixed[in] = true
+		}
+	}
+	return res
+}
+
+// do calls a Builder method by exported name.
+func (e *c22Env) do(b c22V, method string, args ...c22V) c22V {
+	f := e.fn("(*Builder)." + method)
+	if f == nil {
+		e.it.abort("method %s not found", method)
+	}
+	return e.it.call(f, append([]c22V{b}, args...), nil)
+}
+
+// cont: a BuilderContinuation implemented by the rule.
+func (e *c22Env) cont(f func(child c22V)) c22V {
+	return c22V{k: c22KFunc, nat: func(it *c22I, args []c22V) c22V {
+		if len(args) != 1 {
+			it.abort("continuation called with %d arguments", len(args))
+		}
+		f(args[0])
+		return c22V{}
+	}}
+}
+
+// content: n bytes, the first 0xA1 and the last 0xA2 (everything else 0).
+func (e *c22Env) content(n int64) c22V {
+	set := map[int64]byte{}
+	if n > 0 {
+		set[n-1] = 0xA2
+		set[0] = 0xA1
+	}
+	return e.it.buf(n, n, set)
+}
+
+// isContent: s[from:from+n] carries the marks of content(n).
+func c22IsContent(s c22V, from, n int64) bool {
+	if n == 0 {
+		return true
+	}
+	if c22ByteAt(s, from) != 0xA1 {
+		return false
+	}
+	if n > 1 && c22ByteAt(s, from+n-1) != 0xA2 {
+		return false
+	}
+	if n > 2 && c22ByteAt(s, from+n/2) != 0 {
+		return false
+	}
+	return true
+}
+
+func c22BE(v uint64, n int) []byte {
+	out := make([]byte, n)
+	for i := 0; i < n; i++ {
+		out[i] = byte(v >> (8 * uint(n-1-i)))
+	}
+	return out
+}
+
+func c22Hex(bs []byte) string {
+	var sb strings.Builder
+	for i, b := range bs {
+		if i > 0 {
+			sb.WriteByte(' ')
+		}
+		fmt.Fprintf(&sb, "%02x", b)
+	}
+	return sb.String()
+}
+
+// read interprets a String method on the input `in`: s := String(in);
+// ok := s.method(args...); returns ok and the rest of s.
+func (e *c22Env) read(in c22V, method string, args ...c22V) (ok bool, rest c22V, exit *c22Exit) {
+	f := e.fn("(*String)." + method)
+	if f == nil {
+		return false, c22V{}, &c22Exit{kind: "undecided", msg: "method " + method + " not found"}
+	}
+	s := e.it.cell(in)
+	exit = e.it.run(func() {
+		r := e.it.call(f, append([]c22V{s}, args...), nil)
+		ok = r.k == c22KInt && r.n != 0
+	})
+	if exit == nil {
+		rest = s.mem.get(0)
+	}
+	return
+}
+
+// c22Detail: the first findings of a "; "-separated list.
+func c22Detail(bad string) string {
+	items := strings.Split(strings.TrimPrefix(bad, "; "), "; ")
+	if len(items) > 3 {
+		return strings.Join(items[:3], "; ") + fmt.Sprintf("; (+%d more)", len(items)-3)
+	}
+	return strings.Join(items, "; ")
+}
+
+func c22DER(n int64) []byte {
+	switch {
+	case n > 0xffffff:
+		return append([]byte{0x84}, c22BE(uint64(n), 4)...)
+	case n > 0xffff:
+		return append([]byte{0x83}, c22BE(uint64(n), 3)...)
+	case n > 0xff:
+		return append([]byte{0x82}, c22BE(uint64(n), 2)...)
+	case n > 0x7f:
+		return []byte{0x81, byte(n)}
+	}
+	return []byte{byte(n)}
+}
+
+func runC22(c *Ctx) {
+	const pk = "cryptobyte"
+	e := &c22Env{c: c, it: c22NewInterp(), pk: pk, covAny: map[ssa.Instruction]bool{}, covFixed: map[ssa.Instruction]bool{}, missing: map[string]bool{}}
+	byPkg := map[*ssa.Package][]*ssa.Function{}
+	e.it.pkgFuncs = func(p *ssa.Package) []*ssa.Function {
+		if len(byPkg) == 0 {
+			for f := range c.ld.allFns {
+				if f.Pkg != nil {
+					byPkg[f.Pkg] = append(byPkg[f.Pkg], f)
+				}
+			}
+		}
+		return byPkg[p]
+	}
+	if bt := c.namedType(pk, "Builder"); bt != nil {
+		e.bst, _ = bt.Underlying().(*types.Struct)
+	}
+	if e.bst == nil {
+		c.fail("anchor", "cryptobyte.Builder", nil, "struct type Builder not found")
+		return
+	}
+	c22Width(e)
+	c22PrefixWidth(e)
+	c22BigEndianReaders(e)
+	c22Overflow(e)
+	c22Ladder(e)
+	c22AppendGuard(e)
+	c22ErrAfterAdd(e)
+	c22Realloc(e)
+	c22RoundTrip(e)
+	c22ResultWriters(e) // last: uses the allocation sites exercised by the rules above
+}
+
+// ---- one nested program of every kind of operation, written and read back
+func c22RoundTrip(e *c22Env) {
+	prog := func(b c22V) {
+		e.do(b, "AddUint8", c22Int(0x11))
+		e.do(b, "AddUint16LengthPrefixed", e.cont(func(c1 c22V) {
+			e.do(c1, "AddUint24", c22Int(0x223344))
+			e.do(c1, "AddUint8LengthPrefixed", e.cont(func(c2 c22V) { e.do(c2, "AddBytes", e.content(200)) }))
+			e.do(c1, "AddASN1", c22Int(0x30), e.cont(func(c3 c22V) {
+				e.do(c3, "AddUint32", c22Int(0x55667788))
+				e.do(c3, "AddUint24LengthPrefixed", e.cont(func(c4 c22V) {
+					e.do(c4, "AddBytes", e.content(300))
+					e.do(c4, "AddUint16", c22Int(0xdead))
+					e.do(c4, "Unwrite", c22Int(2))
+				}))
+				e.do(c3, "AddASN1", c22Int(0x04), e.cont(func(c5 c22V) { e.do(c5, "AddBytes", e.content(5)) }))
+			}))
+		}))
+		e.do(b, "AddUint32LengthPrefixed", e.cont(func(c6 c22V) {
+			e.do(c6, "AddUint64", c22Int(0x0102030405060708))
+			e.do(c6, "AddUint48", c22Int(0xa1a2a3a4a5a6))
+		}))
+		e.do(b, "AddUint8", c22Int(0x99))
+	}
+	const asn1Body = 4 + (3 + 300) + (2 + 5) // 314: long form, two length octets
+	const total = 1 + 2 + (3 + (1 + 200) + (1 + 3 + asn1Body)) + (4 + 14) + 1
+	bad := ""
+	w := e.fn("(*Builder).Bytes")
+	for _, mode := range []struct {
+		fixed bool
+		cp    int64
+	}{{false, 0}, {true, total}, {true, total + 7}, {true, total - 1}, {true, total - 19}} {
+		var buffer c22V = c22V{k: c22KNil}
+		if mode.fixed {
+			buffer = e.it.buf(0, mode.cp, nil)
+		}
+		res := e.build(mode.fixed, buffer, prog)
+		desc := "growable builder"
+		if mode.fixed {
+			desc = fmt.Sprintf("fixed-size builder of capacity %d (program needs %d)", mode.cp, total)
+		}
+		if mode.fixed && mode.cp < total {
+			if !res.failed() {
+				bad += fmt.Sprintf("; %s: %s, want an error", desc, res)
+			}
 			continue
 		}
-		idx, ok := constInt(ia.Index)
-		if !ok || idx < 0 || idx >= int64(len(out)) {
-			return nil
+		if !res.okay() {
+			bad += fmt.Sprintf("; %s: %s", desc, res)
+			continue
 		}
-		for _, rr := range *ia.Referrers() {
-			st, ok := rr.(*ssa.Store)
-			if !ok {
+		if res.out.ln != total {
+			bad += fmt.Sprintf("; %s: %d bytes written, the program's encoding has %d", desc, res.out.ln, total)
+			continue
+		}
+		if mode.fixed && res.out.mem != buffer.mem {
+			bad += fmt.Sprintf("; %s: output left the caller's buffer", desc)
+			continue
+		}
+		if msg := c22ReadBack(e, res.out); msg != "" {
+			bad += fmt.Sprintf("; %s: %s", desc, msg)
+		}
+	}
+	e.verdict(bad,"C22.roundtrip", "nested program", w,
+		"a program nesting 8/16/24/32-bit prefixed and ASN.1 children with every fixed-width integer and Unwrite parses back value by value with nothing left over (growable and fixed-size; too small a buffer is an error)", c22Detail(bad))
+}
+
+// c22ReadBack mirrors the program of c22RoundTrip with String reads.
+func c22ReadBack(e *c22Env, in c22V) string {
+	msg := ""
+	fail := func(format string, args ...any) {
+		if msg == "" {
+			msg = fmt.Sprintf(format, args...)
+		}
+	}
+	// rd: ok := s.method(args...) on the String held in cell s
+	rd := func(s c22V, method string, args ...c22V) bool {
+		f := e.fn("(*String)." + method)
+		if f == nil {
+			fail("%s not found", method)
+			return false
+		}
+		ok := false
+		if ex := e.it.run(func() {
+			r := e.it.call(f, append([]c22V{s}, args...), nil)
+			ok = r.k == c22KInt && r.n != 0
+		}); ex != nil {
+			fail("%s: %s", method, ex)
+			return false
+		}
+		if !ok {
+			fail("%s fails", method)
+		}
+		return ok
+	}
+	num := func(s c22V, method string, want uint64) {
+		out := e.it.cell(c22Int(0))
+		if rd(s, method, out) && uint64(out.mem.get(0).n) != want {
+			fail("%s yields %#x, written was %#x", method, uint64(out.mem.get(0).n), want)
+		}
+	}
+	sub := func(s c22V, method string, args ...c22V) c22V {
+		out := e.it.cell(c22V{k: c22KNil})
+		rd(s, method, append([]c22V{out}, args...)...)
+		return out
+	}
+	body := func(s c22V, what string, n int64) {
+		v := s.mem.get(0)
+		if l, _ := c22Len(v); l != n || !c22IsContent(v, 0, n) {
+			fail("%s: %d bytes read back, %d were written", what, l, n)
+		}
+	}
+	empty := func(s c22V, what string) {
+		if l, _ := c22Len(s.mem.get(0)); l != 0 {
+			fail("%d bytes left over in %s", l, what)
+		}
+	}
+	s := e.it.cell(in)
+	num(s, "ReadUint8", 0x11)
+	s1 := sub(s, "ReadUint16LengthPrefixed")
+	num(s1, "ReadUint24", 0x223344)
+	body(sub(s1, "ReadUint8LengthPrefixed"), "8-bit prefixed child", 200)
+	s3 := sub(s1, "ReadASN1", c22Int(0x30))
+	num(s3, "ReadUint32", 0x55667788)
+	body(sub(s3, "ReadUint24LengthPrefixed"), "24-bit prefixed child (after Unwrite)", 300)
+	body(sub(s3, "ReadASN1", c22Int(0x04)), "inner ASN.1 element", 5)
+	empty(s3, "the ASN.1 element")
+	empty(s1, "the 16-bit prefixed child")
+	num(s, "ReadUint32", 14)
+	s6 := sub(s, "ReadBytes", c22Int(14))
+	num(s6, "ReadUint64", 0x0102030405060708)
+	num(s6, "ReadUint48", 0xa1a2a3a4a5a6)
+	empty(s6, "the 32-bit prefixed child")
+	num(s, "ReadUint8", 0x99)
+	empty(s, "the output")
+	return msg
+}
+
+// ---- fixed-width integers: writer and reader agree on N/8 big-endian bytes
+func c22Width(e *c22Env) {
+	for _, bits := range []int{8, 16, 24, 32, 48, 64} {
+		n := bits / 8
+		name := fmt.Sprintf("Uint%d", bits)
+		w := e.fn("(*Builder).Add" + name)
+		r := e.fn("(*String).Read" + name)
+		if w == nil || r == nil {
+			continue
+		}
+		bad := ""
+		for _, v := range []uint64{0x0102030405060708, 0xf1e2d3c4b5a69788, 0} {
+			// the parameter type may be wider than N bits (AddUint24 takes a uint32): the excess is dropped
+			pt := w.Signature.Params().At(0).Type()
+			arg := c22Int(wrapTo(int64(v), pt))
+			want := c22BE(v, n)
+			res := e.build(false, c22V{k: c22KNil}, func(b c22V) { e.do(b, "Add"+name, arg) })
+			if !res.okay() {
+				bad += fmt.Sprintf("; Add%s(%#x): %s", name, uint64(arg.n), res)
 				continue
 			}
-			v := st.Val
-			if cv, ok := v.(*ssa.Convert); ok {
-				v = cv.X
+			if got := c22Bytes(res.out, 0, res.out.ln); res.out.ln != int64(n) || c22Hex(got) != c22Hex(want) {
+				bad += fmt.Sprintf("; Add%s(%#x) writes [%s], the %d big-endian bytes are [%s]", name, uint64(arg.n), c22Hex(got), n, c22Hex(want))
+				continue
 			}
-			switch x := v.(type) {
-			case *ssa.BinOp:
-				if x.Op == token.SHR {
-					if k, ok := constInt(stripConv(x.Y)); ok {
-						if _, isParam := x.X.(*ssa.Parameter); isParam {
-							out[idx] = k
+			// reader, on the specified encoding followed by one more byte
+			in := e.it.bufOf(append(append([]byte{}, want...), 0x5a))
+			out := e.it.cell(c22Int(0))
+			ok, rest, ex := e.read(in, "Read"+name, out)
+			wantV := wrapTo(int64(v&(uint64(1)<<uint(bits)-1)), r.Signature.Params().At(0).Type().Underlying().(*types.Pointer).Elem())
+			switch {
+			case ex != nil:
+				bad += fmt.Sprintf("; Read%s on [%s]: %s", name, c22Hex(want), ex)
+			case !ok:
+				bad += fmt.Sprintf("; Read%s fails on a %d-byte input", name, n+1)
+			case out.mem.get(0).n != wantV:
+				bad += fmt.Sprintf("; Read%s on [%s] yields %#x, big-endian value is %#x", name, c22Hex(want), uint64(out.mem.get(0).n), uint64(wantV))
+			case rest.ln != 1 || c22ByteAt(rest, 0) != 0x5a:
+				bad += fmt.Sprintf("; Read%s consumes %d bytes instead of %d", name, int64(n+1)-rest.ln, n)
+			}
+		}
+		// short input
+		ok, rest, ex := e.read(e.it.bufOf(make([]byte, n-1)), "Read"+name, e.it.cell(c22Int(0)))
+		if ex != nil || ok || rest.ln != int64(n-1) {
+			bad += fmt.Sprintf("; Read%s on a %d-byte input must fail and consume nothing (ok=%v, %v)", name, n-1, ok, ex)
+		}
+		e.verdict(bad,"C22.width", "Add"+name+"/Read"+name, w,
+			fmt.Sprintf("writer emits and reader consumes exactly %d big-endian bytes (3 values, short input rejected)", n), c22Detail(bad))
+	}
+}
+
+// ---- length-prefixed children: prefix width and layout, writer and reader
+func c22PrefixWidth(e *c22Env) {
+	for _, bits := range []int{8, 16, 24, 32} {
+		k := bits / 8
+		name := fmt.Sprintf("Uint%dLengthPrefixed", bits)
+		w := e.fn("(*Builder).Add" + name)
+		if w == nil {
+			continue
+		}
+		hasReader := bits != 32
+		if hasReader && e.fn("(*String).Read"+name) == nil {
+			continue
+		}
+		bad := ""
+		lens := []int64{0, 5, 0xfe}
+		if k >= 2 {
+			lens = append(lens, 0x0102)
+		}
+		if k >= 3 {
+			lens = append(lens, 0x010203)
+		}
+		if k >= 4 {
+			lens = append(lens, 0x01020304)
+		}
+		for _, L := range lens {
+			called := 0
+			res := e.build(false, c22V{k: c22KNil}, func(b c22V) {
+				e.do(b, "AddUint8", c22Int(0x77))
+				e.do(b, "Add"+name, e.cont(func(child c22V) { called++; e.do(child, "AddBytes", e.content(L)) }))
+				e.do(b, "AddUint8", c22Int(0x78))
+			})
+			if !res.okay() {
+				bad += fmt.Sprintf("; child of %d bytes: %s", L, res)
+				continue
+			}
+			want := c22BE(uint64(L), k)
+			switch {
+			case called != 1:
+				bad += fmt.Sprintf("; continuation called %d times", called)
+			case res.out.ln != int64(k)+L+2:
+				bad += fmt.Sprintf("; child of %d bytes: output has %d bytes, want 1+%d+%d+1", L, res.out.ln, k, L)
+			case c22ByteAt(res.out, 0) != 0x77 || c22ByteAt(res.out, res.out.ln-1) != 0x78:
+				bad += fmt.Sprintf("; child of %d bytes: the bytes written before / after the child are damaged", L)
+			case c22Hex(c22Bytes(res.out, 1, int64(k))) != c22Hex(want):
+				bad += fmt.Sprintf("; child of %#x bytes: length prefix [%s], want the %d-byte big-endian [%s]", L, c22Hex(c22Bytes(res.out, 1, int64(k))), k, c22Hex(want))
+			case !c22IsContent(res.out, 1+int64(k), L):
+				bad += fmt.Sprintf("; child of %d bytes: content does not follow the %d-byte prefix", L, k)
+			}
+			if !hasReader || bad != "" {
+				continue
+			}
+			// the reader on what the writer produced (minus the leading byte)
+			in := res.out
+			in.n, in.ln, in.cp = in.n+1, in.ln-1, in.cp-1
+			out := e.it.cell(c22V{k: c22KNil})
+			ok, rest, ex := e.read(in, "Read"+name, out)
+			got := out.mem.get(0)
+			switch {
+			case ex != nil:
+				bad += fmt.Sprintf("; Read%s: %s", name, ex)
+			case !ok:
+				bad += fmt.Sprintf("; Read%s rejects the encoding of a %d-byte child", name, L)
+			case got.ln != L || !c22IsContent(got, 0, L):
+				bad += fmt.Sprintf("; Read%s returns %d bytes for a %d-byte child", name, got.ln, L)
+			case rest.ln != 1 || c22ByteAt(rest, 0) != 0x78:
+				bad += fmt.Sprintf("; Read%s leaves %d bytes, want 1", name, rest.ln)
+			}
+		}
+		what := fmt.Sprintf("%d-byte big-endian prefix then content; reader splits it back (%d child lengths)", k, len(lens))
+		if !hasReader {
+			what = fmt.Sprintf("%d-byte big-endian prefix then content (%d child lengths)", k, len(lens))
+		}
+		e.verdict(bad,"C22.prefix-width", "Add"+name, w, what, c22Detail(bad))
+	}
+}
+
+// ---- readers decode multi-byte lengths big-endian (hand-made inputs)
+func c22BigEndianReaders(e *c22Env) {
+	// (a) ReadUintNLengthPrefixed
+	bad := ""
+	var at *ssa.Function
+	for k := 1; k <= 3; k++ {
+		name := fmt.Sprintf("ReadUint%dLengthPrefixed", 8*k)
+		f := e.fn("(*String)." + name)
+		if f == nil {
+			bad += "; " + name + " not found"
+			continue
+		}
+		at = f
+		L := int64(0x010203 >> (8 * uint(3-k)))
+		set := map[int64]byte{}
+		for i, b := range c22BE(uint64(L), k) {
+			set[int64(i)] = b
+		}
+		set[int64(k)+L-1] = 0xA2
+		set[int64(k)] = 0xA1
+		set[int64(k)+L] = 0x5a
+		total := int64(k) + L + 1
+		out := e.it.cell(c22V{k: c22KNil})
+		ok, rest, ex := e.read(e.it.buf(total, total, set), name, out)
+		got := out.mem.get(0)
+		switch {
+		case ex != nil:
+			bad += fmt.Sprintf("; %s: %s", name, ex)
+		case !ok:
+			bad += fmt.Sprintf("; %s rejects prefix [%s] followed by %d bytes (big-endian length %d)", name, c22Hex(c22BE(uint64(L), k)), L+1, L)
+		case got.ln != L || !c22IsContent(got, 0, L):
+			bad += fmt.Sprintf("; %s with prefix [%s] returns %d bytes, big-endian length is %d", name, c22Hex(c22BE(uint64(L), k)), got.ln, L)
+		case rest.ln != 1 || c22ByteAt(rest, 0) != 0x5a:
+			bad += fmt.Sprintf("; %s leaves %d bytes, want 1", name, rest.ln)
+		}
+		// one byte too short: fails
+		ok, _, ex = e.read(e.it.buf(total-2, total-2, set), name, e.it.cell(c22V{k: c22KNil}))
+		if ex != nil || ok {
+			bad += fmt.Sprintf("; %s accepts a body shorter than its prefix says (ok=%v, %v)", name, ok, ex)
+		}
+	}
+	e.verdict(bad,"C22.be-accumulate", "ReadUintNLengthPrefixed prefix decoding", at,
+		"1-, 2- and 3-byte prefixes with pairwise distinct bytes are decoded big-endian; short bodies rejected", c22Detail(bad))
+
+	// (b) ReadASN1 long-form length octets
+	bad = ""
+	f := e.fn("(*String).ReadASN1")
+	if f != nil {
+		for k := 1; k <= 4; k++ {
+			L := int64(0x01020304 >> (8 * uint(4-k)))
+			if k == 1 {
+				L = 0x81
+			}
+			set := map[int64]byte{0: 0x30, 1: byte(0x80 | k)}
+			for i, b := range c22BE(uint64(L), k) {
+				set[int64(2+i)] = b
+			}
+			h := int64(2 + k)
+			set[h] = 0xA1
+			set[h+L-1] = 0xA2
+			set[h+L] = 0x5a
+			total := h + L + 1
+			out := e.it.cell(c22V{k: c22KNil})
+			ok, rest, ex := e.read(e.it.buf(total, total, set), "ReadASN1", out, c22Int(0x30))
+			got := out.mem.get(0)
+			hdr := c22Hex(append([]byte{0x30, byte(0x80 | k)}, c22BE(uint64(L), k)...))
+			switch {
+			case ex != nil:
+				bad += fmt.Sprintf("; header [%s]: %s", hdr, ex)
+			case !ok:
+				bad += fmt.Sprintf("; ReadASN1 rejects header [%s] followed by %d bytes", hdr, L+1)
+			case got.ln != L || !c22IsContent(got, 0, L):
+				bad += fmt.Sprintf("; ReadASN1 with header [%s] returns %d bytes, big-endian length is %d", hdr, got.ln, L)
+			case rest.ln != 1 || c22ByteAt(rest, 0) != 0x5a:
+				bad += fmt.Sprintf("; ReadASN1 with header [%s] leaves %d bytes, want 1", hdr, rest.ln)
+			}
+		}
+	} else {
+		bad = "ReadASN1 not found"
+	}
+	e.verdict(bad,"C22.be-accumulate", "ReadASN1 long-form length decoding", f,
+		"long-form lengths of 1..4 octets with pairwise distinct bytes are decoded big-endian", c22Detail(bad))
+}
+
+// ---- a child that does not fit its length prefix is an error, never a truncated prefix
+func c22Overflow(e *c22Env) {
+	bad := ""
+	var at *ssa.Function
+	n := 0
+	for k := 1; k <= 4; k++ {
+		name := fmt.Sprintf("AddUint%dLengthPrefixed", 8*k)
+		w := e.fn("(*Builder)." + name)
+		if w == nil {
+			bad += "; " + name + " not found"
+			continue
+		}
+		at = w
+		lim := int64(1) << (8 * uint(k))
+		for _, tc := range []struct {
+			L   int64
+			err bool
+		}{{lim - 1, false}, {lim, true}, {lim + 1, true}, {3*lim + 5, true}} {
+			n++
+			for _, nested := range []bool{false, true} {
+				if nested && k == 4 {
+					continue // the enclosing 32-bit prefix would overflow as well
+				}
+				res := e.build(false, c22V{k: c22KNil}, func(b c22V) {
+					body := e.cont(func(child c22V) { e.do(child, "AddBytes", e.content(tc.L)) })
+					if nested {
+						// the overflowing child sits inside a 32-bit prefixed parent
+						e.do(b, "AddUint32LengthPrefixed", e.cont(func(outer c22V) { e.do(outer, name, body) }))
+					} else {
+						e.do(b, name, body)
+					}
+				})
+				pre := int64(0)
+				if nested {
+					pre = 4
+				}
+				switch {
+				case res.exit != nil:
+					bad += fmt.Sprintf("; %s with a child of %#x bytes: %s", name, tc.L, res)
+				case tc.err && !res.failed():
+					bad += fmt.Sprintf("; %s with a child of %#x bytes (more than a %d-byte prefix can express): %s — an overflowing length prefix is accepted", name, tc.L, k, res)
+				case !tc.err && !res.okay():
+					bad += fmt.Sprintf("; %s with a child of %#x bytes (fits the prefix): %s", name, tc.L, res)
+				case !tc.err && (res.out.ln != pre+int64(k)+tc.L || c22Hex(c22Bytes(res.out, pre, int64(k))) != c22Hex(c22BE(uint64(tc.L), k)) || !c22IsContent(res.out, pre+int64(k), tc.L)):
+					bad += fmt.Sprintf("; %s with a child of %#x bytes: prefix [%s] / %d bytes of output are wrong", name, tc.L, c22Hex(c22Bytes(res.out, pre, int64(k))), res.out.ln)
+				}
+			}
+		}
+	}
+	e.verdict(bad,"C22.prefix-overflow", "AddUintNLengthPrefixed", at,
+		fmt.Sprintf("children of 2^N-1 bytes are encoded, children of 2^N, 2^N+1 and 3*2^N+5 bytes make Bytes fail (N=8..32, plain and nested, %d cases)", 2*n), c22Detail(bad))
+}
+
+// ---- ASN.1 length promotion
+func c22Ladder(e *c22Env) {
+	w := e.fn("(*Builder).AddASN1")
+	if w == nil {
+		return
+	}
+	bad := ""
+	n := 0
+	for _, L := range []int64{0, 1, 0x7e, 0x7f, 0x80, 0x81, 0xfe, 0xff, 0x100, 0x101, 0xfffe, 0xffff, 0x10000, 0xfffffe, 0xffffff, 0x1000000, 0x7fffffff, 0xfffffffd, 0xfffffffe, 0xffffffff, 0x100000000} {
+		n++
+		res := e.build(false, c22V{k: c22KNil}, func(b c22V) {
+			e.do(b, "AddASN1", c22Int(0x30), e.cont(func(child c22V) { e.do(child, "AddBytes", e.content(L)) }))
+			e.do(b, "AddUint8", c22Int(0x78))
+		})
+		if L > 0xfffffffe {
+			if !res.failed() {
+				bad += fmt.Sprintf("; length %#x must be rejected as too long: %s", L, res)
+			}
+			continue
+		}
+		hdr := c22DER(L)
+		h := int64(len(hdr))
+		if !res.okay() {
+			bad += fmt.Sprintf("; length %#x: %s", L, res)
+			continue
+		}
+		if res.out.ln < 2 {
+			bad += fmt.Sprintf("; length %#x: output has only %d bytes", L, res.out.ln)
+			continue
+		}
+		// the header the code chose, as far as its own first octet says
+		first := c22ByteAt(res.out, 1)
+		gl := int64(1)
+		if first&0x80 != 0 {
+			gl = 1 + first&0x7f
+		}
+		got := c22Bytes(res.out, 1, min(gl, res.out.ln-1))
+		switch {
+		case c22ByteAt(res.out, 0) != 0x30:
+			bad += fmt.Sprintf("; length %#x: tag octet lost", L)
+		case c22Hex(got) != c22Hex(hdr):
+			bad += fmt.Sprintf("; length %#x: length octets [%s] (first octet %#x with %d extra octets), DER requires [%s] (%#x with %d)", L, c22Hex(got), got[0], len(got)-1, c22Hex(hdr), hdr[0], len(hdr)-1)
+		case res.out.ln != 1+h+L+1:
+			bad += fmt.Sprintf("; length %#x: output has %d bytes, want 1+%d+%d+1", L, res.out.ln, h, L)
+		case !c22IsContent(res.out, 1+h, L):
+			bad += fmt.Sprintf("; length %#x: the content was not moved behind the %d length octets", L, h)
+		case c22ByteAt(res.out, res.out.ln-1) != 0x78:
+			bad += fmt.Sprintf("; length %#x: the byte written after the element is damaged", L)
+		}
+		if bad != "" || L > 0x1000000 {
+			continue
+		}
+		out := e.it.cell(c22V{k: c22KNil})
+		ok, rest, ex := e.read(res.out, "ReadASN1", out, c22Int(0x30))
+		g := out.mem.get(0)
+		switch {
+		case ex != nil:
+			bad += fmt.Sprintf("; length %#x: ReadASN1: %s", L, ex)
+		case !ok || g.ln != L || !c22IsContent(g, 0, L) || rest.ln != 1:
+			bad += fmt.Sprintf("; length %#x: the element does not parse back with ReadASN1 (ok=%v, %d content bytes, %d left)", L, ok, g.ln, rest.ln)
+		}
+	}
+	e.verdict(bad,"C22.asn1-ladder", "AddASN1 length form", w, fmt.Sprintf("DER length form correct at %d boundary lengths; elements up to 2^24 bytes parse back", n), c22Detail(bad))
+}
+
+// ---- AddBytes on a fixed-size builder: appended exactly when the bytes fit, never reallocated
+func c22AppendGuard(e *c22Env) {
+	w := e.fn("(*Builder).AddBytes")
+	if w == nil {
+		return
+	}
+	bad := ""
+	cases := []struct {
+		fixed      bool
+		l, nb, cp  int64
+		shouldFail bool
+	}{{true, 10, 5, 12, true}, {true, 10, 5, 14, true}, {true, 10, 5, 15, false}, {true, 10, 5, 16, false}, {false, 10, 5, 12, false},
+		{true, 0, 1, 0, true}, {true, 0, 0, 0, false}, {true, 0, 1, 1, false}, {false, 0, 1, 0, false}, {true, 3, 1 << 33, 1 << 32, true}, {true, 3, 1 << 33, 3 + 1<<33, false}}
+	for _, tc := range cases {
+		set := map[int64]byte{}
+		if tc.l > 0 {
+			set[0], set[tc.l-1] = 0xB1, 0xB2
+		}
+		buffer := e.it.buf(tc.l, tc.cp, set)
+		res := e.build(tc.fixed, buffer, func(b c22V) { e.do(b, "AddBytes", e.content(tc.nb)) })
+		desc := fmt.Sprintf("fixedSize=%v len(result)=%d len(bytes)=%d cap=%d", tc.fixed, tc.l, tc.nb, tc.cp)
+		switch {
+		case res.exit != nil:
+			bad += fmt.Sprintf("; %s: %s", desc, res)
+		case tc.shouldFail && !res.failed():
+			bad += fmt.Sprintf("; %s: the bytes do not fit the fixed-size buffer but %s", desc, res)
+		case !tc.shouldFail && !res.okay():
+			bad += fmt.Sprintf("; %s: %s", desc, res)
+		case !tc.shouldFail && (res.out.ln != tc.l+tc.nb || !c22IsContent(res.out, tc.l, tc.nb) || (tc.l > 0 && (c22ByteAt(res.out, 0) != 0xB1 || c22ByteAt(res.out, tc.l-1) != 0xB2))):
+			bad += fmt.Sprintf("; %s: output is not the old bytes followed by the new ones", desc)
+		case !tc.shouldFail && tc.fixed && res.out.ln > 0 && res.out.mem != buffer.mem:
+			bad += fmt.Sprintf("; %s: a fixed-size builder moved its output to a new buffer", desc)
+		}
+	}
+	e.verdict(bad,"C22.append-guard", "AddBytes", w, fmt.Sprintf("bytes are appended in place exactly when they fit a fixed-size buffer, a growable builder grows (%d cases)", len(cases)), c22Detail(bad))
+}
+
+// ---- error discipline: a fallible append that failed must surface as an error
+func c22ErrAfterAdd(e *c22Env) {
+	// (a) no room for the length placeholder
+	bad := ""
+	var at *ssa.Function
+	n := 0
+	for k := 1; k <= 5; k++ {
+		name := fmt.Sprintf("AddUint%dLengthPrefixed", 8*k)
+		need := int64(k)
+		if k == 5 {
+			name, need = "AddASN1", 2
+		}
+		w := e.fn("(*Builder)." + name)
+		if w == nil {
+			bad += "; " + name + " not found"
+			continue
+		}
+		at = w
+		for pre := int64(0); pre <= 3; pre += 3 {
+			for room := int64(0); room < need; room++ {
+				if name == "AddASN1" && room == 0 {
+					continue // not even the tag fits: decided by the AddBytes cases
+				}
+				n++
+				buffer := e.it.buf(0, pre+room, nil)
+				res := e.build(true, buffer, func(b c22V) {
+					if pre > 0 {
+						e.do(b, "AddBytes", e.it.bufOf([]byte{1, 2, 3}))
+					}
+					body := e.cont(func(child c22V) { e.do(child, "AddUint8", c22Int(0x42)) })
+					if name == "AddASN1" {
+						e.do(b, name, c22Int(0x30), body)
+					} else {
+						e.do(b, name, body)
+					}
+				})
+				if !res.failed() {
+					bad += fmt.Sprintf("; fixed-size buffer holding %d bytes with room for %d of the %d bytes %s needs before its content: %s (must be an error from Bytes)", pre, room, need, name, res)
+				}
+			}
+		}
+	}
+	e.verdict(bad,"C22.err-after-add", "length placeholder does not fit", at,
+		fmt.Sprintf("a fixed-size builder without room for the placeholder makes Bytes fail; nothing panics (%d cases)", n), c22Detail(bad))
+
+	// (b) room for tag, placeholder and content, but not for the extra long-form length octets
+	bad = ""
+	n = 0
+	w := e.fn("(*Builder).AddASN1")
+	if w != nil {
+		for _, L := range []int64{0x7f, 0x80, 0xff, 0x100, 0x12c, 0xffff, 0x10000, 0x1000000} {
+			need := 1 + int64(len(c22DER(L))) + L
+			for cp := 2 + L; cp <= need+1; cp++ {
+				for _, trailer := range []bool{false, true} {
+					n++
+					buffer := e.it.buf(0, cp, nil)
+					res := e.build(true, buffer, func(b c22V) {
+						e.do(b, "AddASN1", c22Int(0x04), e.cont(func(child c22V) { e.do(child, "AddBytes", e.content(L)) }))
+						if trailer {
+							e.do(b, "AddUint8", c22Int(0x78))
 						}
+					})
+					total := need
+					if trailer {
+						total++
+					}
+					desc := fmt.Sprintf("content %#x, capacity %d, encoding needs %d", L, cp, total)
+					switch {
+					case res.exit != nil:
+						bad += fmt.Sprintf("; %s: %s", desc, res)
+					case cp < total && !res.failed():
+						bad += fmt.Sprintf("; %s: the encoding does not fit the fixed-size buffer but %s (a failed append went unnoticed: truncated output instead of an error)", desc, res)
+					case cp >= total && !res.okay():
+						bad += fmt.Sprintf("; %s: %s", desc, res)
+					case cp >= total && (res.out.ln != total || res.out.mem != buffer.mem || c22Hex(c22Bytes(res.out, 1, int64(len(c22DER(L))))) != c22Hex(c22DER(L)) || !c22IsContent(res.out, need-L, L)):
+						bad += fmt.Sprintf("; %s: output is not the DER element in the caller's buffer", desc)
 					}
 				}
-			case *ssa.Parameter:
-				out[idx] = 0
 			}
+		}
+	} else {
+		bad = "AddASN1 not found"
+	}
+	e.verdict(bad,"C22.err-after-add", "extra ASN.1 length octets do not fit", w,
+		fmt.Sprintf("a fixed-size builder that cannot hold the promoted header makes Bytes fail, one that can holds the exact element in place (%d cases)", n), c22Detail(bad))
+}
+
+// ---- fixed-size builder: a child whose buffer is not the parent's is refused
+func c22Realloc(e *c22Env) {
+	w := e.fn("(*Builder).AddUint16LengthPrefixed")
+	if w == nil {
+		return
+	}
+	bad := ""
+	for _, fixed := range []bool{true, false} {
+		for _, swap := range []bool{true, false} {
+			buffer := e.it.buf(0, 64, nil)
+			swapped := false
+			res := e.build(fixed, buffer, func(b c22V) {
+				e.do(b, "AddUint8", c22Int(0x77))
+				e.do(b, "AddUint16LengthPrefixed", e.cont(func(child c22V) {
+					e.do(child, "AddBytes", e.content(5))
+					if !swap {
+						return
+					}
+					// what a reallocating append would have done: same bytes, another backing array
+					rp, ok := e.it.fieldPtr(child, e.bst, "result")
+					if !ok {
+						e.it.abort("field Builder.result not found")
+					}
+					old := e.it.load(rp)
+					nm := e.it.newMem(128, c22Int(0))
+					e.it.move(nm, 0, old.mem, old.n, old.ln)
+					e.it.store(rp, c22V{k: c22KSlice, mem: nm, ln: old.ln, cp: 128})
+					swapped = true
+				}))
+			})
+			desc := fmt.Sprintf("fixedSize=%v, child buffer replaced=%v", fixed, swap)
+			switch {
+			case res.exit != nil && res.exit.kind == "undecided":
+				bad += fmt.Sprintf("; %s: %s", desc, res)
+			case swap && !swapped:
+				bad += fmt.Sprintf("; %s: continuation not run", desc)
+			case fixed && swap:
+				if res.exit == nil || res.exit.kind != "panic" {
+					bad += fmt.Sprintf("; %s: %s — the reallocation test no longer guards the adoption of the child's buffer", desc, res)
+				}
+			default:
+				if !res.okay() || res.out.ln != 8 || c22Hex(c22Bytes(res.out, 0, 3)) != "77 00 05" || !c22IsContent(res.out, 3, 5) {
+					bad += fmt.Sprintf("; %s: %s, want 77 00 05 and the 5 content bytes", desc, res)
+				} else if fixed && res.out.mem != buffer.mem {
+					bad += fmt.Sprintf("; %s: output left the caller's buffer", desc)
+				}
+			}
+		}
+	}
+	e.verdict(bad,"C22.realloc-check", "adoption of the child's buffer", w,
+		"a fixed-size parent panics when the child's buffer is another array, adopts it otherwise; a growable parent adopts either", c22Detail(bad))
+}
+
+// ---- who may write Builder.result, and from where the value comes
+func c22ResultWriters(e *c22Env) {
+	c := e.c
+	type site struct {
+		st *ssa.Store
+		f  *ssa.Function
+	}
+	var sites []site
+	for _, f := range c.funcsOfPkg(e.pk) {
+		for _, st := range storesTo(f, "Builder", "result") {
+			sites = append(sites, site{st, f})
+		}
+	}
+	allocs := map[ssa.Instruction]bool{}
+	perFn := map[string]int{}
+	for _, s := range sites {
+		var notes []string
+		var bads []string
+		c22Provenance(c, s.st.Val, 0, map[ssa.Value]bool{}, allocs, &notes, &bads)
+		name := fnName(s.f)
+		perFn[name]++
+		if perFn[name] > 1 {
+			name = fmt.Sprintf("%s #%d", name, perFn[name])
+		}
+		sort.Strings(notes)
+		notes = c22Uniq(notes)
+		c.check(len(bads) == 0, "C22.result-writers", name, s.st, "Builder.result is assigned "+strings.Join(notes, " / "),
+			"Builder.result is assigned a value that is neither derived from Builder.result, nor the caller's buffer, nor a checked allocation: "+strings.Join(c22Uniq(bads), "; "))
+	}
+	c.check(len(sites) >= 1, "C22.result-writers", "count", nil, fmt.Sprintf("%d assignments to Builder.result found", len(sites)), "no assignment to Builder.result found (anchor lost)")
+	// every allocation site that feeds Builder.result was exercised by the interpreted programs
+	// (so it is subject to the fixed-size checks), and a plain make never runs for a fixed-size builder
+	var as []ssa.Instruction
+	for a := range allocs {
+		as = append(as, a)
+	}
+	sort.Slice(as, func(i, j int) bool { return as[i].Pos() < as[j].Pos() })
+	for i, a := range as {
+		name := fmt.Sprintf("allocation site #%d in %s", i, fnName(a.Parent()))
+		switch {
+		case !e.covAny[a]:
+			c.fail("C22.append-guard", name, a, "this append/make feeds Builder.result but none of the interpreted Builder programs reaches it: a second way of growing the output that bypasses the fixed-size capacity test")
+		case e.covFixed[a] && c22IsMake(a):
+			c.fail("C22.append-guard", name, a, "a fresh buffer is allocated for Builder.result while interpreting a fixed-size builder")
+		default:
+			c.ok("C22.append-guard", name, a, "feeds Builder.result and was exercised by the interpreted programs (fixed-size outputs stayed in the caller's buffer)")
+		}
+	}
+	c.check(len(as) >= 1, "C22.append-guard", "allocation sites", nil, fmt.Sprintf("%d allocation site(s) feed Builder.result", len(as)), "no append feeding Builder.result found (anchor lost)")
+}
+
+func c22IsMake(in ssa.Instruction) bool {
+	_, ok := in.(*ssa.MakeSlice)
+	return ok
+}
+
+func c22Uniq(xs []string) []string {
+	var out []string
+	for i, x := range xs {
+		if i == 0 || x != xs[i-1] {
+			out = append(out, x)
 		}
 	}
 	return out
 }
 
-// readerLayout: for a value built as OR of (conv(v[i]) << k), the map i -> k.
-func readerLayout(v ssa.Value, out map[int64]int64) bool {
-	switch x := v.(type) {
-	case *ssa.BinOp:
-		switch x.Op {
-		case token.OR:
-			return readerLayout(x.X, out) && readerLayout(x.Y, out)
-		case token.SHL:
-			k, ok := constInt(stripConv(x.Y))
-			if !ok {
-				return false
-			}
-			idx, ok := byteIndex(x.X)
-			if !ok {
-				return false
-			}
-			out[idx] = k
-			return true
-		}
-	case *ssa.Convert, *ssa.UnOp:
-		idx, ok := byteIndex(v)
-		if !ok {
-			return false
-		}
-		out[idx] = 0
-		return true
-	}
-	return false
-}
-
-func byteIndex(v ssa.Value) (int64, bool) {
-	v = stripConv(v)
-	u, ok := v.(*ssa.UnOp)
-	if !ok || u.Op != token.MUL {
-		return 0, false
-	}
-	ia, ok := u.X.(*ssa.IndexAddr)
-	if !ok {
-		return 0, false
-	}
-	return constInt(ia.Index)
-}
-
-func runC22(c *Ctx) {
-	const pk = "cryptobyte"
-	// ---- width / endianness agreement
-	for _, bits := range []int{8, 16, 24, 32, 48, 64} {
-		n := bits / 8
-		name := fmt.Sprintf("Uint%d", bits)
-		w := c.fn(pk, "(*Builder).Add"+name)
-		r := c.fn(pk, "(*String).Read"+name)
-		if w == nil || r == nil {
-			continue
-		}
-		var wl []int64
-		for _, ci := range callsNamed(w, "(*cryptobyte.Builder).add") {
-			wl = writerLayout(ci.(*ssa.Call))
-		}
-		rl := map[int64]int64{}
-		okR := false
-		var readN int64 = -1
-		for _, ci := range callsNamed(r, "(*cryptobyte.String).read") {
-			readN, _ = constInt(ci.Common().Args[1])
-		}
-		allInstrs(r, func(in ssa.Instruction) {
-			if st, ok := in.(*ssa.Store); ok {
-				if p, ok := st.Addr.(*ssa.Parameter); ok && p == r.Params[1] {
-					okR = readerLayout(st.Val, rl)
-				}
-			}
-		})
-		good := wl != nil && okR && len(wl) == n && len(rl) == n && readN == int64(n)
-		detail := ""
-		if good {
-			for i := 0; i < n; i++ {
-				want := int64(8 * (n - 1 - i))
-				if wl[i] != want || rl[int64(i)] != want {
-					good = false
-					detail = fmt.Sprintf("byte %d: writer shift %d, reader shift %d, big-endian requires %d", i, wl[i], rl[int64(i)], want)
-				}
-			}
-		} else {
-			detail = fmt.Sprintf("writer layout %v (want %d bytes), reader layout %v recognised=%v, read(%d)", wl, n, rl, okR, readN)
-		}
-		c.check(good, "C22.width", "Add"+name+"/Read"+name, w,
-			fmt.Sprintf("writer and reader agree on %d big-endian bytes %v", n, wl), detail)
-	}
-	// ---- length-prefix width agreement
-	for _, bits := range []int{8, 16, 24, 32} {
-		name := fmt.Sprintf("Uint%dLengthPrefixed", bits)
-		w := c.fn(pk, "(*Builder).Add"+name)
-		if w == nil {
-			continue
-		}
-		var wk int64 = -1
-		for _, ci := range callsNamed(w, "(*cryptobyte.Builder).addLengthPrefixed") {
-			wk, _ = constInt(ci.Common().Args[1])
-			if b, ok := constBool(ci.Common().Args[2]); !ok || b {
-				wk = -2
-			}
-		}
-		if bits == 32 {
-			c.check(wk == 4, "C22.prefix-width", "Add"+name, w, "4-byte prefix, non-ASN.1", fmt.Sprintf("prefix width %d, want 4", wk))
-			continue
-		}
-		r := c.fn(pk, "(*String).Read"+name)
-		if r == nil {
-			continue
-		}
-		var rk int64 = -1
-		for _, ci := range callsNamed(r, "(*cryptobyte.String).readLengthPrefixed") {
-			rk, _ = constInt(ci.Common().Args[1])
-		}
-		c.check(wk == int64(bits/8) && rk == wk, "C22.prefix-width", "Add"+name+"/Read"+name, w,
-			fmt.Sprintf("both use a %d-byte prefix", wk), fmt.Sprintf("writer prefix width %d, reader %d, want %d", wk, rk, bits/8))
-	}
-	// readLengthPrefixed / readUnsigned accumulate big-endian: result = result<<8 | b
-	for _, fname := range []string{"(*String).readLengthPrefixed", "(*String).readUnsigned"} {
-		f := c.fn(pk, fname)
-		if f == nil {
-			continue
-		}
-		found := false
-		allInstrs(f, func(in ssa.Instruction) {
-			if bo, ok := in.(*ssa.BinOp); ok && bo.Op == token.OR {
-				for _, pair := range [][2]ssa.Value{{bo.X, bo.Y}, {bo.Y, bo.X}} {
-					if sh, ok := pair[0].(*ssa.BinOp); ok && sh.Op == token.SHL {
-						if k, ok := constInt(stripConv(sh.Y)); ok && k == 8 {
-							if _, isPhi := sh.X.(*ssa.Phi); isPhi {
-								if cv, ok := pair[1].(*ssa.Convert); ok {
-									if b, ok := cv.X.Type().Underlying().(*types.Basic); ok && b.Kind() == types.Uint8 {
-										found = true
-									}
-								}
-							}
-						}
-					}
-				}
-			}
-		})
-		c.check(found, "C22.be-accumulate", fname, f, "accumulates acc<<8 | byte over the prefix bytes", "big-endian accumulation acc = acc<<8 | b not found")
-	}
-
-	// ---- who may write Builder.result
-	allowed := map[string]bool{
-		"NewBuilder": true, "NewFixedBuilder": true, "(*Builder).add": true, "(*Builder).flushChild": true,
-		"(*Builder).Unwrite": true, "(*Builder).addLengthPrefixed": true,
-	}
-	writers := map[string]bool{}
-	for _, f := range c.funcsOfPkg(pk) {
-		if len(storesTo(f, "Builder", "result")) > 0 {
-			writers[fnName(f)] = true
-		}
-	}
-	var ws []string
-	for w := range writers {
-		ws = append(ws, w)
-	}
-	sort.Strings(ws)
-	for _, w := range ws {
-		c.check(allowed[w], "C22.result-writers", w, nil, "tabled writer of Builder.result", "function assigns Builder.result but is not in the frozen table of writers")
-	}
-	c.check(len(ws) >= 5, "C22.result-writers", "count", nil, fmt.Sprintf("%d writers found", len(ws)), fmt.Sprintf("only %d writers of Builder.result found; table expects >= 5", len(ws)))
-
-	// ---- the only append in the package that feeds Builder.result is in add, guarded
-	add := c.fn(pk, "(*Builder).add")
-	if add != nil {
-		apps := calls(add, nameIs("builtin:append"))
-		var capCmp *ssa.BinOp
-		allInstrs(add, func(in ssa.Instruction) {
-			if bo, ok := in.(*ssa.BinOp); ok && (bo.Op == token.GTR || bo.Op == token.LSS || bo.Op == token.GEQ || bo.Op == token.LEQ) {
-				for _, op := range []ssa.Value{bo.X, bo.Y} {
-					if cc, ok := op.(*ssa.Call); ok && calleeName(&cc.Call) == "builtin:cap" {
-						capCmp = bo
-					}
-				}
-			}
-		})
-		if len(apps) != 1 || capCmp == nil {
-			c.fail("C22.append-guard", "(*Builder).add", add, fmt.Sprintf("expected one append and a capacity comparison; found %d appends, cap comparison %v", len(apps), capCmp != nil))
-		} else {
-			// evaluate: fixedSize=1, len(result)=10, len(bytes)=5, cap=12 -> append unreachable; cap=15 -> reachable
-			ok := true
-			why := ""
-			for _, tc := range []struct {
-				fixed, l, nb, cp int64
-				reach            bool
-			}{{1, 10, 5, 12, false}, {1, 10, 5, 14, false}, {1, 10, 5, 15, true}, {0, 10, 5, 12, true}, {1, 0, 1, 0, false}, {1, 0, 0, 0, true}} {
-				e := newEnv()
-				e.bindPath(add, "b.fixedSize", tc.fixed)
-				e.bindLenPath(add, "b.result", tc.l)
-				e.bindLen(add, add.Params[1], tc.nb)
-				allInstrs(add, func(in ssa.Instruction) {
-					if cc, ok := in.(*ssa.Call); ok && calleeName(&cc.Call) == "builtin:cap" {
-						e.bind(cc, tc.cp)
-					}
-				})
-				e.bindPath(add, "b.err", 0)
-				e.solve(add)
-				got := e.reach[apps[0].Block()]
-				if got != tc.reach {
-					ok = false
-					why = fmt.Sprintf("fixedSize=%d len(result)=%d len(bytes)=%d cap=%d: append reachable=%v, want %v", tc.fixed, tc.l, tc.nb, tc.cp, got, tc.reach)
-				}
-			}
-			c.check(ok, "C22.append-guard", "(*Builder).add", apps[0], "append reachable exactly when the bytes fit a fixed-size buffer (6 cases evaluated)", why)
-		}
-		for _, f := range c.funcsOfPkg(pk) {
-			if f == add {
-				continue
-			}
-			for _, ci := range calls(f, nameIs("builtin:append")) {
-				// an append whose result is stored into Builder.result elsewhere
-				if v := callValue(ci); v != nil {
-					for _, r := range *v.Referrers() {
-						if st, ok := r.(*ssa.Store); ok && isField(st.Addr, "Builder", "result") {
-							c.fail("C22.append-guard", fnName(f), ci, "append into Builder.result outside add (bypasses the fixed-size capacity test)")
-						}
-					}
-				}
-			}
-		}
-	}
-
-	// ---- error discipline after fallible add
-	type site struct {
-		fn      string
-		targets func(f *ssa.Function, after ssa.Instruction) []ssa.Instruction
-	}
-	for _, s := range []site{
-		{"(*Builder).addLengthPrefixed", func(f *ssa.Function, after ssa.Instruction) []ssa.Instruction {
-			var t []ssa.Instruction
-			for _, st := range storesTo(f, "Builder", "child") {
-				t = append(t, st)
-			}
-			return t
-		}},
-		{"(*Builder).flushChild", func(f *ssa.Function, after ssa.Instruction) []ssa.Instruction {
-			var t []ssa.Instruction
-			for _, ci := range calls(f, nameIs("builtin:copy")) {
-				t = append(t, ci)
-			}
-			for _, st := range storesTo(f, "Builder", "offset") {
-				t = append(t, st)
-			}
-			for _, st := range storesTo(f, "Builder", "result") {
-				t = append(t, st)
-			}
-			return t
-		}},
-	} {
-		f := c.fn(pk, s.fn)
-		if f == nil {
-			continue
-		}
-		adds := callsNamed(f, "(*cryptobyte.Builder).add")
-		if len(adds) == 0 {
-			c.fail("C22.err-after-add", s.fn, f, "no call of add found (anchor lost)")
-			continue
-		}
-		for i, ci := range adds {
-			recv := accessPath(ci.Common().Args[0])
-			if recv == "" {
-				// child := b.child (a loaded pointer): use the value identity
-				recv = "?"
-			}
-			cut := edgeSet{}
-			allInstrs(f, func(in ssa.Instruction) {
-				u, ok := in.(*ssa.UnOp)
-				if !ok || u.Op != token.MUL {
-					return
-				}
-				fa, ok := u.X.(*ssa.FieldAddr)
-				if !ok || !isField(fa, "Builder", "err") {
-					return
-				}
-				if fa.X != ci.Common().Args[0] && accessPath(fa.X) != accessPath(ci.Common().Args[0]) {
-					return
-				}
-				if !precedes(ci, u) {
-					return
-				}
-				yes, _ := edgesWhere(u, isNil)
-				cut.addAll(yes)
-			})
-			var badT ssa.Instruction
-			for _, t := range s.targets(f, ci) {
-				if pathBetween(ci, t, cut) {
-					badT = t
-					break
-				}
-			}
-			name := fmt.Sprintf("%s add#%d", s.fn, i)
-			if badT != nil {
-				c.fail("C22.err-after-add", name, badT, "code that assumes the bytes were appended is reachable after a fallible add without testing the builder's err (fixed-size builder: panic or truncated output instead of an error)")
-			} else {
-				c.ok("C22.err-after-add", name, ci, fmt.Sprintf("all dependent code lies behind an err == nil edge (%d edges)", len(cut)))
-			}
-		}
-	}
-
-	// ---- flushChild: adoption only with l == 0 ; identity check before adoption
-	if f := c.fn(pk, "(*Builder).flushChild"); f != nil {
-		var adopt *ssa.Store
-		for _, st := range storesTo(f, "Builder", "result") {
-			adopt = st
-		}
-		var lzero []edge
-		allInstrs(f, func(in ssa.Instruction) {
-			bo, ok := in.(*ssa.BinOp)
-			if !ok || (bo.Op != token.NEQ && bo.Op != token.EQL) {
-				return
-			}
-			if k, ok := constInt(bo.Y); !ok || k != 0 {
-				return
-			}
-			phi, ok := bo.X.(*ssa.Phi)
-			if !ok {
-				return
-			}
-			// phi must be fed by a right shift (l >>= 8)
-			shifted := false
-			for _, ed := range phi.Edges {
-				if sh, ok := ed.(*ssa.BinOp); ok && sh.Op == token.SHR {
-					shifted = true
-				}
-			}
-			if !shifted {
-				return
-			}
-			y, _ := boolEdges(bo, bo.Op == token.EQL)
-			lzero = append(lzero, y...)
-		})
-		if adopt == nil || len(lzero) == 0 {
-			c.fail("C22.prefix-overflow", "(*Builder).flushChild", f, "adoption store or residual-length test not found")
-		} else {
-			cut := edgeSet{}
-			cut.addAll(lzero)
-			c.check(!pathFromEntry(adopt, cut), "C22.prefix-overflow", "(*Builder).flushChild", adopt,
-				"the child's buffer is adopted only over the residual-length == 0 edge", "b.result = child.result is reachable without passing the residual length == 0 test (an overflowing length prefix would be accepted)")
-		}
-		// identity test: a comparison of &b.result[0] and &child.result[0] whose != edge panics dominates adoption under fixedSize
-		var pan *ssa.Panic
-		for _, p := range panicsOf(f) {
-			if strings.Contains(panicText(p), "reallocated") {
-				pan = p
-			}
-		}
-		// with fixedSize == true, adoption must be unreachable except over the
-		// "same backing array" edge of a pointer comparison &b.result[0] ?= &child.result[0]
-		var same []edge
-		allInstrs(f, func(in ssa.Instruction) {
-			bo, ok := in.(*ssa.BinOp)
-			if !ok || (bo.Op != token.NEQ && bo.Op != token.EQL) {
-				return
-			}
-			ax, ok1 := bo.X.(*ssa.IndexAddr)
-			ay, ok2 := bo.Y.(*ssa.IndexAddr)
-			if !ok1 || !ok2 {
-				return
-			}
-			px, py := accessPath(ax.X), accessPath(ay.X)
-			if !(strings.HasSuffix(px, ".result") && strings.HasSuffix(py, ".result") && px != py) {
-				return
-			}
-			y, _ := boolEdges(bo, bo.Op == token.EQL)
-			same = append(same, y...)
-		})
-		okRealloc := false
-		if pan != nil && adopt != nil && len(same) > 0 {
-			e := newEnv()
-			e.bindPath(f, "b.fixedSize", 1)
-			cut := e.cuts(f)
-			cut.addAll(same)
-			okRealloc = !pathFromEntry(adopt, cut)
-		}
-		c.check(okRealloc, "C22.realloc-check", "(*Builder).flushChild", f, "with fixedSize set, the child's buffer is adopted only over the same-backing-array edge", "the fixed-size reallocation test no longer guards the adoption of the child's buffer")
-
-		// ---- ASN.1 length ladder
-		c22Ladder(c, f)
-	}
-}
-
-func c22Ladder(c *Ctx, f *ssa.Function) {
-	// length = len(child.result) - child.pendingLenLen - child.offset : bind the SUB result
-	var length *ssa.BinOp
-	allInstrs(f, func(in ssa.Instruction) {
-		if bo, ok := in.(*ssa.BinOp); ok && bo.Op == token.SUB {
-			if inner, ok := bo.X.(*ssa.BinOp); ok && inner.Op == token.SUB {
-				if cc, ok := inner.X.(*ssa.Call); ok && calleeName(&cc.Call) == "builtin:len" {
-					length = bo
-				}
-			}
-		}
-	})
-	// store of lenByte: child.result[child.offset] = lenByte  (uint8 store through IndexAddr with non-constant index) in a block after the ladder
-	var lenByteStore *ssa.Store
-	var extra *ssa.BinOp // lenLen - 1
-	allInstrs(f, func(in ssa.Instruction) {
-		if st, ok := in.(*ssa.Store); ok {
-			if _, ok := st.Addr.(*ssa.IndexAddr); ok {
-				if _, isPhi := st.Val.(*ssa.Phi); isPhi && lenByteStore == nil {
-					lenByteStore = st
-				}
-			}
-		}
-		if bo, ok := in.(*ssa.BinOp); ok && bo.Op == token.SUB {
-			if _, isPhi := bo.X.(*ssa.Phi); isPhi {
-				if k, ok := constInt(bo.Y); ok && k == 1 {
-					if bits, _, _ := intBits(bo.Type()); bits == 8 && extra == nil {
-						extra = bo // lenLen - 1 (uint8 arithmetic)
-					}
-				}
-			}
-		}
-	})
-	if length == nil || lenByteStore == nil || extra == nil {
-		c.fail("C22.asn1-ladder", "(*Builder).flushChild", f, "ladder anchors (length expression, first-octet store, lenLen-1) not found")
+// c22Provenance walks backwards from a value stored into Builder.result.
+func c22Provenance(c *Ctx, v ssa.Value, depth int, seen map[ssa.Value]bool, allocs map[ssa.Instruction]bool, notes, bads *[]string) {
+	if seen[v] {
 		return
 	}
-	type want struct {
-		lenLen, lenByte int64
-		err             bool
+	seen[v] = true
+	if depth > 12 {
+		*bads = append(*bads, "provenance too deep to follow")
+		return
 	}
-	spec := func(d int64) want {
-		switch {
-		case d > 0xfffffffe:
-			return want{err: true}
-		case d > 0xffffff:
-			return want{5, 0x84, false}
-		case d > 0xffff:
-			return want{4, 0x83, false}
-		case d > 0xff:
-			return want{3, 0x82, false}
-		case d > 0x7f:
-			return want{2, 0x81, false}
+	switch x := v.(type) {
+	case *ssa.Const:
+		if x.Value == nil {
+			*notes = append(*notes, "nil")
+			return
 		}
-		return want{1, d, false}
-	}
-	bad := ""
-	n := 0
-	for _, d := range []int64{0, 1, 0x7e, 0x7f, 0x80, 0x81, 0xfe, 0xff, 0x100, 0x101, 0xfffe, 0xffff, 0x10000, 0xfffffe, 0xffffff, 0x1000000, 0x7fffffff, 0xfffffffd, 0xfffffffe, 0xffffffff, 0x100000000} {
-		e := newEnv()
-		e.bind(length, d)
-		e.bindPath(f, "child.pendingIsASN1", 1)
-		e.bindPath(f, "child.pendingLenLen", 1)
-		allInstrs(f, func(in ssa.Instruction) {
-			if u, ok := in.(*ssa.UnOp); ok && u.Op == token.MUL {
-				if fa, ok := u.X.(*ssa.FieldAddr); ok {
-					if isField(fa, "Builder", "pendingIsASN1") {
-						e.bind(u, 1)
-					}
-					if isField(fa, "Builder", "pendingLenLen") {
-						e.bind(u, 1)
-					}
-					if isField(fa, "Builder", "err") && accessPath(fa.X) != "b" {
-						e.bind(u, 0) // child.err == nil
-					}
+	case *ssa.Slice:
+		c22Provenance(c, x.X, depth+1, seen, allocs, notes, bads)
+		return
+	case *ssa.ChangeType:
+		c22Provenance(c, x.X, depth+1, seen, allocs, notes, bads)
+		return
+	case *ssa.Phi:
+		for _, ed := range x.Edges {
+			c22Provenance(c, ed, depth+1, seen, allocs, notes, bads)
+		}
+		return
+	case *ssa.UnOp:
+		if isField(x.X, "Builder", "result") {
+			*notes = append(*notes, "a (re)slice of some Builder's result")
+			return
+		}
+		// a local variable that had its address taken: every value stored into it
+		if al, ok := x.X.(*ssa.Alloc); ok {
+			found := false
+			for _, r := range *al.Referrers() {
+				if st, ok := r.(*ssa.Store); ok && st.Addr == al {
+					found = true
+					c22Provenance(c, st.Val, depth+1, seen, allocs, notes, bads)
 				}
 			}
-		})
-		e.solve(f)
-		w := spec(d)
-		reached := e.reach[lenByteStore.Block()]
-		n++
-		if w.err {
-			if reached {
-				bad = bad + fmt.Sprintf("; length %#x must be rejected as too long but the length octet store is reachable", d)
+			if found {
+				return
 			}
-			continue
 		}
-		if !reached {
-			bad = bad + fmt.Sprintf("; length %#x: the length octet store is unreachable", d)
-			continue
+	case *ssa.MakeSlice:
+		allocs[x] = true
+		*notes = append(*notes, "a fresh buffer (make)")
+		return
+	case *ssa.Parameter:
+		f := x.Parent()
+		idx := -1
+		for i, p := range f.Params {
+			if p == x {
+				idx = i
+			}
 		}
-		lb, ok1 := e.eval(lenByteStore.Val)
-		ex, ok2 := e.eval(extra)
-		if !ok1 || !ok2 {
-			bad = bad + fmt.Sprintf("; length %#x: promoted length octets not evaluable", d)
-			continue
+		if f.Object() != nil && f.Object().Exported() && f.Signature.Recv() == nil {
+			*notes = append(*notes, "the buffer handed to the exported constructor "+f.Name())
+			return
 		}
-		if lb != w.lenByte || ex != w.lenLen-1 {
-			bad = bad + fmt.Sprintf("; length %#x: first octet %#x with %d extra octets, DER requires %#x with %d", d, lb, ex, w.lenByte, w.lenLen-1)
+		cs := c.callersOf(f)
+		if len(cs) == 0 || idx < 0 {
+			*bads = append(*bads, "parameter "+x.Name()+" of "+f.Name()+" (no static caller)")
+			return
+		}
+		for _, cs1 := range cs {
+			args := cs1.Common().Args
+			if cs1.Common().IsInvoke() || idx >= len(args) {
+				*bads = append(*bads, "parameter "+x.Name()+" of "+f.Name()+" (dynamic call)")
+				continue
+			}
+			c22Provenance(c, args[idx], depth+1, seen, allocs, notes, bads)
+		}
+		return
+	case *ssa.Call:
+		if calleeName(&x.Call) == "builtin:append" {
+			allocs[x] = true
+			*notes = append(*notes, "an append to")
+			c22Provenance(c, x.Call.Args[0], depth+1, seen, allocs, notes, bads)
+			return
+		}
+		if callee := x.Call.StaticCallee(); callee != nil && len(callee.Blocks) > 0 && callee.Pkg == x.Parent().Pkg {
+			for _, r := range returnsOf(callee) {
+				if len(r.Results) == 1 {
+					c22Provenance(c, r.Results[0], depth+1, seen, allocs, notes, bads)
+				}
+			}
+			return
+		}
+		// a library function from slices to a slice (slices.Grow, slices.Clip, bytes.Clone ...): an
+		// allocation site like append, fed by its slice arguments
+		if _, isSlice := x.Type().Underlying().(*types.Slice); isSlice && x.Call.StaticCallee() != nil && !x.Call.IsInvoke() {
+			fed := false
+			for _, a := range x.Call.Args {
+				if _, ok := a.Type().Underlying().(*types.Slice); ok {
+					fed = true
+					c22Provenance(c, a, depth+1, seen, allocs, notes, bads)
+				}
+			}
+			if fed {
+				allocs[x] = true
+				*notes = append(*notes, "the result of "+short(calleeName(&x.Call))+" on")
+				return
+			}
+		}
+		*bads = append(*bads, "result of "+short(calleeName(&x.Call)))
+		return
+	case *ssa.Extract:
+		if call, ok := x.Tuple.(*ssa.Call); ok {
+			if callee := call.Call.StaticCallee(); callee != nil && len(callee.Blocks) > 0 && callee.Pkg == call.Parent().Pkg {
+				for _, r := range returnsOf(callee) {
+					if x.Index < len(r.Results) {
+						c22Provenance(c, r.Results[x.Index], depth+1, seen, allocs, notes, bads)
+					}
+				}
+				return
+			}
 		}
 	}
-	c.check(bad == "", "C22.asn1-ladder", "(*Builder).flushChild", lenByteStore, fmt.Sprintf("DER length form correct at %d boundary lengths", n), bad)
+	*bads = append(*bads, fmt.Sprintf("%s (%T)", v.Name(), v))
 }
